@@ -11,9 +11,10 @@ import (
 
 // Op is one public-API call on generated arguments.
 type Op struct {
-	Kind string  `json:"kind"` // enc dec cfg feat imgdec
-	Img  ImgSpec `json:"img"`
-	Opt  OptSpec `json:"opt"`
+	Kind string    `json:"kind"` // enc dec cfg feat imgdec animenc
+	Img  ImgSpec   `json:"img"`
+	Opt  OptSpec   `json:"opt"`
+	Anim *AnimSpec `json:"anim,omitempty"` // animenc: a history of AddFrame calls + Close
 }
 
 func (o Op) Key() string {
@@ -22,6 +23,9 @@ func (o Op) Key() string {
 }
 
 func (o Op) String() string {
+	if o.Kind == "animenc" && o.Anim != nil {
+		return "animenc " + o.Anim.String()
+	}
 	return fmt.Sprintf("%s %s %s", o.Kind, o.Img.String(), o.Opt.String())
 }
 
@@ -95,15 +99,24 @@ func ExecOp(op Op, input []byte) Result {
 	switch op.Kind {
 	case "enc":
 		img := Generate(op.Img)
-		var buf bytes.Buffer
-		err := webp.Encode(&buf, img, op.Opt.ToOptions())
+		// a fault-free simulated writer: every Write is a scheduling point, so other
+		// clients can run while this Encode is in the middle of writing
+		wr := &SimWriter{}
+		err := webp.Encode(wr, img, op.Opt.ToOptions())
 		if err != nil {
 			return Result{Err: true, ErrStr: err.Error()}
 		}
-		b := buf.Bytes()
+		b := wr.Data
 		return Result{Digest: DigestBytes(b), Len: len(b), Bytes: b}
+	case "animenc":
+		in, _ := op.Anim.Canvases()
+		res := EncodeAnim(*op.Anim, in, WriteFault{})
+		if res.AddErr != nil || res.CloseErr != nil {
+			return Result{Err: true, ErrStr: fmt.Sprint(res.AddErr, res.CloseErr)}
+		}
+		return Result{Digest: DigestBytes(res.Data), Len: len(res.Data), Bytes: res.Data}
 	case "dec":
-		img, err := webp.Decode(bytes.NewReader(input))
+		img, err := webp.Decode(NewSimReader(input, ReadPlan{Mode: "whole", HasLen: true, ErrAt: -1}))
 		if err != nil {
 			return Result{Err: true, ErrStr: err.Error()}
 		}
@@ -161,3 +174,6 @@ func hashString(s string) uint64 {
 	}
 	return h
 }
+
+// needsInput: decode-type ops read a stored file produced beforehand.
+func needsInput(op Op) bool { return op.Kind != "enc" && op.Kind != "animenc" }
